@@ -79,7 +79,7 @@ ReloadAgrees == LET r == LoadedDeps(exists, file) IN
 (***************************************************************************)
 (* Operation sequences for the real DepsLog (harness/logh.cc).              *)
 (***************************************************************************)
-RecOps == {[op |-> "rec", o |-> o, m |-> m, d |-> d] : o \in {"a", "bb"}, m \in MtM, d \in {<<>>, <<"ccc">>, <<"dddd", "ccc">>, <<"a">>}}
+RecOps == {[op |-> "rec", o |-> o, m |-> m, d |-> d] : o \in {"a", "bb"}, m \in MtM, d \in {<<>>, <<"ccc">>, <<"dddd", "ccc">>, <<"a">>, <<"dddd", "a">>}}
 TearOp(c, t) == [op |-> "tear", cut |-> c, tail |-> t]
 Reopen == [op |-> "reopen"]
 PickS(k, S) == IF Cardinality(S) <= k THEN S ELSE RandomSubset(k, S)
